@@ -369,3 +369,158 @@ pub fn run_case(case: &JobCase) -> Trace {
 	drop(rt);
 	trace
 }
+
+
+/// Multi-thread variant: the same operations sent from `senders` concurrent tasks on a
+/// multi-thread runtime with real (millisecond) timers. The schedule is whatever the OS produces;
+/// only schedule-independent invariants may be asserted on the result. Children must all exit by
+/// themselves eventually so that the run quiesces; `settle_ms` of real time is waited at the end.
+pub fn run_case_mt(case: &JobCase, senders: usize, settle_ms: u64) -> Trace {
+	let rt = Builder::new_multi_thread().worker_threads(4).enable_all().build().expect("runtime");
+	let trace = rt.block_on(async {
+		let world = World::new(case.sim.clone());
+		let shared = Arc::new(Shared {
+			markers: Mutex::new(Vec::new()),
+			seq: AtomicU64::new(0),
+			waits: Mutex::new(Vec::new()),
+			behind: Mutex::new(Vec::new()),
+		});
+		let command = Arc::new(Command {
+			program: Program::Exec {
+				prog: "/bin/true".into(),
+				args: Vec::new(),
+			},
+			options: SpawnOptions::default(),
+		});
+		let (job, task) = start_job(command);
+		let task_end: Arc<Mutex<Option<(u64, bool)>>> = Arc::new(Mutex::new(None));
+		{
+			let task_end = task_end.clone();
+			let world = world.clone();
+			tokio::spawn(async move {
+				let res = task.await;
+				let panicked = res.as_ref().err().map_or(false, |e| e.is_panic());
+				*task_end.lock().unwrap() = Some((world.now_ms(), panicked));
+			});
+		}
+		job.set_spawn_hook(world.hook(None)).await;
+		if case.err_handler {
+			job.set_error_handler(world.error_handler()).await;
+		}
+		let n = case.steps.len();
+		let steps_obs: Arc<Mutex<Vec<StepObs>>> = Arc::new(Mutex::new(
+			(0..n).map(|i| StepObs { step: i, sent_ms: 0, sent: false, waiters: Vec::new(), behind_ticket: None }).collect(),
+		));
+		let senders = senders.clamp(1, 4);
+		let mut handles = Vec::new();
+		for sidx in 0..senders {
+			let job = job.clone();
+			let world = world.clone();
+			let shared = shared.clone();
+			let steps: Vec<(usize, Step)> = case.steps.iter().cloned().enumerate().filter(|(i, _)| i % senders == sidx).collect();
+			let steps_obs = steps_obs.clone();
+			let track = case.track;
+			handles.push(tokio::spawn(async move {
+				for (i, st) in steps {
+					if st.gap > 0 {
+						sleep(Duration::from_millis(u64::from(st.gap))).await;
+					}
+					if matches!(st.op, Op::DropHandle | Op::Delete | Op::DeleteNow) {
+						// terminations are sent by the main task once every sender is done (below)
+						continue;
+					}
+					let sent_ms = world.now_ms();
+					let ticket = send(&job, &st.op, &shared, &world, i);
+					let nw = st.waiters.clamp(1, 4) as usize;
+					for w in 0..nw {
+						let t = ticket.clone();
+						let shared = shared.clone();
+						let world = world.clone();
+						tokio::spawn(async move {
+							t.await;
+							shared.waits.lock().unwrap().push((i, w, world.now_ms()));
+						});
+					}
+					let mut behind_ticket = None;
+					if track {
+						let t = job.run(marker_fn(shared.clone(), world.clone(), i, true));
+						let shared = shared.clone();
+						let world = world.clone();
+						tokio::spawn(async move {
+							t.await;
+							shared.behind.lock().unwrap().push((i, world.now_ms()));
+						});
+						behind_ticket = Some(None);
+					}
+					let mut so = steps_obs.lock().unwrap();
+					so[i].sent = true;
+					so[i].sent_ms = sent_ms;
+					so[i].waiters = vec![None; nw];
+					so[i].behind_ticket = behind_ticket;
+				}
+			}));
+		}
+		for h in handles {
+			let _ = h.await;
+		}
+		// One termination, if the case has any, goes out after every sender has finished, typically with a
+		// process still running and tickets outstanding.
+		if let Some((i, st)) = case.steps.iter().enumerate().find(|(_, s)| matches!(s.op, Op::Delete | Op::DeleteNow)) {
+			if st.gap > 0 {
+				sleep(Duration::from_millis(u64::from(st.gap))).await;
+			}
+			let sent_ms = world.now_ms();
+			let ticket = send(&job, &st.op, &shared, &world, i);
+			let nw = st.waiters.clamp(1, 4) as usize;
+			for w in 0..nw {
+				let t = ticket.clone();
+				let shared = shared.clone();
+				let world = world.clone();
+				tokio::spawn(async move {
+					t.await;
+					shared.waits.lock().unwrap().push((i, w, world.now_ms()));
+				});
+			}
+			let mut so = steps_obs.lock().unwrap();
+			so[i].sent = true;
+			so[i].sent_ms = sent_ms;
+			so[i].waiters = vec![None; nw];
+		}
+		// Quiescence: poll until every ticket has resolved and every process has ended (then a short
+		// extra wait so that late duplicates are seen), or give up after `settle_ms` of real time.
+		let expected_waits: usize = steps_obs.lock().unwrap().iter().map(|s| s.waiters.len()).sum();
+		let expected_behind = steps_obs.lock().unwrap().iter().filter(|s| s.behind_ticket.is_some()).count();
+		let deadline = tokio::time::Instant::now() + Duration::from_millis(settle_ms);
+		loop {
+			let done = shared.waits.lock().unwrap().len() >= expected_waits && shared.behind.lock().unwrap().len() >= expected_behind;
+			if done || tokio::time::Instant::now() >= deadline {
+				break;
+			}
+			sleep(Duration::from_millis(5)).await;
+		}
+		sleep(Duration::from_millis(40)).await;
+		let is_dead_at_end = Some(job.is_dead());
+		let mut steps = steps_obs.lock().unwrap().clone();
+		for (i, w, t) in shared.waits.lock().unwrap().iter() {
+			steps[*i].waiters[*w] = Some(*t);
+		}
+		for (i, t) in shared.behind.lock().unwrap().iter() {
+			steps[*i].behind_ticket = Some(Some(*t));
+		}
+		let markers = shared.markers.lock().unwrap().clone();
+		let end_ms = world.now_ms();
+		let te = *task_end.lock().unwrap();
+		let log = world.log();
+		job.delete_now();
+		Trace {
+			log,
+			steps,
+			markers,
+			task_end: te,
+			is_dead_at_end,
+			end_ms,
+		}
+	});
+	rt.shutdown_timeout(std::time::Duration::from_millis(300));
+	trace
+}
